@@ -118,14 +118,19 @@ CHECKS = {
             "to the code by comparing annotation texts of every generated element/property in Coq, and the oracle reads the generated annotation with `typing` and "
             "checks every attribute of every built model.",
             "full on the model (Annot.v + Validate.v) under the two named premises"),
-    "C03": ("Coq theorem by induction on the element tree (C03_meaning: the emitted document, read by Spec6.v6, accepts exactly what the tree accepts; reference-free trees) reusing C01's element lemmas through 27 keyword-lookup lemmas on the serializer model SerJson.v + refutations of the two repaired defects + generated keyword/type tables + per-run recomputation of every generated document in Coq and the Spec6 oracle on the resolved document",
+    "C03": ("Coq theorems by induction on the element tree: C03_meaning (reference-free trees: the emitted document, read by Spec6.v6, accepts exactly what the tree accepts) and C03_meaning_classes (trees with object classes: the document serialize_json writes, its references resolved by Resolve.resolve_doc, is the in-place document, which accepts exactly what the tree accepts) reusing C01's element/object lemmas through 27 keyword-lookup lemmas on the serializer model SerJson.v + refutations of the two repaired defects + generated keyword/type tables + per-run recomputation of every generated document in Coq, reference resolution in Coq and the Spec6 oracle",
             "C03_meaning: for every reference-free element tree (no object class inside; typed elements within their constructor signature; distinct non-empty JSON names; a property both "
             "required and defaulted also in the explicit required list; non-empty compositions; decided by SerFrag.dslb, proved sound), every oracle and value, the document the model serializer "
-            "writes accepts exactly the values the tree accepts (up to crashes).  Also C03_required_complete, C03_properties_keyed_by_source; refuted on the old behaviour: C03_old_*_refuted "
-            "(fixes f0c8af1, aba574c).  Trees with object classes ($ref, definitions, _from_definitions, orderer) are outside the theorem: each run (i) recomputes every generated document with "
-            "SerJson.ser_doc inside Coq and requires equality with serialize_json's output (and counts the trees the theorem applies to), (ii) evaluates Spec6.v on the resolved document for values "
-            "aimed at the tree and requires the element's verdict to lie in the tolerated set, (iii) checks json.dumps, $ref resolution and the Draft-6 metaschema (jsonschema).  Findings K15, K21.",
-            "full on reference-free trees; trees with classes by model recomputation and the Spec6 oracle evaluated in Coq"),
+            "writes accepts exactly the values the tree accepts (up to crashes).  C03_meaning_classes: for every tree of the fragment cdsl with object classes (classes with clean const/enum, distinct "
+            "non-empty JSON names, no explicitly required name that names a defaulted property; ClsFrag.cdslb) whose definitions hold, under its name, the document of every class node below the primary "
+            "(ClsFrag.defs_okb: so no two different classes share a name, finding K25 otherwise), for all large enough fuel resolve_doc(ser_doc e classes) = ser_inl e (C03_resolution, by induction with the "
+            "slot-by-slot map over the 27 keywords) and v6 WCode (ser_inl e) v agrees with build e v (C03_inplace_meaning: the typed-object clause of Spec6 with the code's required-with-default waiver).  "
+            "Both checkers proved sound and counted per run (codes 9/10).  Also C03_required_complete, C03_properties_keyed_by_source; refuted on the old behaviour: C03_old_*_refuted (fixes f0c8af1, aba574c).  "
+            "Outside the theorems: caller-supplied definitions (_from_definitions replaces ==-equal sub-elements: needs C17's congruence), several roots, the orderer's class collection (taken from the "
+            "implementation and checked by defs_okb).  Each run (i) recomputes every generated document with SerJson/RunSer.ser_doc inside Coq and requires equality with serialize_json's output, (ii) resolves "
+            "the references of the RAW document inside Coq and evaluates Spec6.v on it for values aimed at the tree, (iii) checks json.dumps, $ref resolution and the Draft-6 metaschema (jsonschema).  "
+            "Findings K15, K21, K25.",
+            "full on reference-free trees and on trees with uniquely named object classes; caller definitions / several roots by model recomputation and the Spec6 oracle evaluated in Coq"),
     "C06": ("Coq theorems by induction on the schema and on the element tree: C06_idempotent_classfree (class-free schemas: the parser's image lies in the normal form nf, and on nf parse(serialize e) = e in every parse state, so the second round trip writes the first document), C06_normal_form_keeps_meaning (serialize(parse S) accepts what S accepts), refutation C06_idempotence_refuted (K24) + executable sound checkers of both fragments counted per run + the real pipeline materialize->parse->serialize three times + executed Python classes vs parsed classes",
             "C06_idempotent_classfree: for every schema of the class-free fragment (C01's plain) with no empty property name and `tidy` (no empty required list / properties object: finding K24 otherwise; "
             "additionalItems/additionalProperties a boolean or a schema without composition keywords), every parse state and configuration satisfying cfg_okb (decided on the tables read from /repo): the element "
